@@ -14,6 +14,8 @@ import EEM.Model.PredictFrame
 import EEM.Model.Metrics
 import EEM.Model.SettingsTree
 import EEM.Gen.SettingsTables
+import EEM.Model.Gate
+import EEM.Gen.Guards
 
 open EEM EEM.Proto EEM.Model
 
@@ -402,6 +404,26 @@ def opLock (args : List String) : String :=
     | _, _, _ => "bad-op"
   | _ => "bad-op"
 
+open EEM.Model.Gate in
+/-- `gate <method> <fitted dataDq modelDq ignore rightType tzEqual featuresMissing ghiRequiredMissing>` (0/1 each) -/
+def opGate (args : List String) : String :=
+  match args with
+  | m :: bits =>
+    let gs : Option (List (Cond × Exc)) := match m with
+      | "dailyFit" => some Gen.Guards.dailyFit | "dailyPredict" => some Gen.Guards.dailyPredict
+      | "billingPredict" => some Gen.Guards.billingPredict | "hourlyFit" => some Gen.Guards.hourlyFit
+      | "hourlyPredict" => some Gen.Guards.hourlyPredict | "caltrackPredict" => some Gen.Guards.caltrackPredict
+      | _ => none
+    match gs, bits.mapM parseBool01 with
+    | some gs, some [a, b, c, d, e, f, g, h] =>
+      match evalGuards gs ⟨a, b, c, d, e, f, g, h⟩ with
+      | none => "ok none"
+      | some .typeError => "ok TypeError" | some .runtimeError => "ok RuntimeError"
+      | some .valueError => "ok ValueError" | some .dataSufficiencyError => "ok DataSufficiencyError"
+      | some .disqualifiedModelError => "ok DisqualifiedModelError"
+    | _, _ => "bad-op"
+  | _ => "bad-op"
+
 def step (line : String) : String :=
   match words line with
   | "submodel" :: args => opPredictSubmodel args
@@ -428,6 +450,7 @@ def step (line : String) : String :=
   | "hgate" :: args => opHGate args
   | "dgate" :: args => opDGate args
   | "lock" :: args => opLock args
+  | "gate" :: args => opGate args
   | _ => "bad-op"
 
 partial def loop (h : IO.FS.Stream) (out : IO.FS.Stream) : IO Unit := do
